@@ -31,7 +31,7 @@ mkdir -p /verif/target
 exec 8>/verif/target/.repo.lock; flock -x 8; export VERIF_LOCK_HELD=1
 cd /repo || exit 2
 [ -z "$(git status --porcelain -- src)" ] || { echo "repo dirty"; exit 2; }
-git apply "$P" || { echo "patch does not apply to /repo"; exit 2; }
+git apply --3way "$P" 2>/dev/null || git apply "$P" || { echo "patch does not apply to /repo"; exit 2; }
 results=""
 for c in $CHECKS; do
   out=$(cd /verif && ./check "$c" quick 2>&1); rc=$?
@@ -40,7 +40,7 @@ for c in $CHECKS; do
   echo "check $c: exit=$rc VIOLATION lines=$nv :: $first"
   results="$results{\"check\":\"$c\",\"tier\":\"quick\",\"exit\":$rc,\"violation_lines\":$nv},"
 done
-git -C /repo checkout -- .
+git -C /repo reset -q --hard HEAD
 S="/verif/seeded/${ID}_$((K + ${SEED_OFFSET:-0}))"; mkdir -p "$S"
 cp "$P" "$S/patch.diff"; cp "$D" "$S/demo.rs"
 python3 - "$M" "$S/meta.json" "$ID" "$ok" "[${results%,}]" "$base_demo" "$suite" "$mut_demo" <<'PY'
